@@ -697,6 +697,7 @@ class Gen:
     # ---------------------------------------------------------------- functions
     def do_fn(self, name, opts, sections, impl, trusted, tmpl_path):
         props, ret, alias, rlimit = [], 'r', None, None
+        assumed_here = 'trusted' in opts
         for o in opts:
             if o.startswith('props='):
                 props = o[6:].split(',')
@@ -731,6 +732,7 @@ class Gen:
         decl_only = it.body_open is None
         info = FnInfo(self.unit, qname, props, trusted, src.path, line_of(src.text, it.decl_start))
         info.rlimit = rlimit
+        info.assumed_here = assumed_here
         info.lost = []
         info.decl_only = decl_only
         info.is_trait_impl = bool(impl and impl[2] and not decl_only)
